@@ -4,6 +4,8 @@ import (
 	"bytes"
 	"io"
 	"unicode"
+
+	"github.com/osteele/liquid/verifhook"
 )
 
 // A trimWriter provides whitespace control around a wrapped io.Writer.
@@ -21,6 +23,7 @@ type trimWriter struct {
 // set, the current buffer is flushed before b is written.
 // Write only returns the bytes written to w during a flush.
 func (tw *trimWriter) Write(b []byte) (n int, err error) {
+	verifhook.Yield(verifhook.SiteTrimWrite)
 	if tw.trim {
 		b = bytes.TrimLeftFunc(b, unicode.IsSpace)
 		tw.trim = false
